@@ -84,6 +84,9 @@ AttProblems ==
     \* a TCP connection attempt (socket level: the runtime is told how long it may take) is bounded by
     \* the configured connect timeout, nothing else
     ELSE IF e.p = "conn" /\ e.limit # cfg.ct THEN {"connect-timeout-not-honoured"}
+    \* bounded work: a reply that is dropped (truncated, wrong letter case) moves the server to TCP, it is not
+    \* a reason to ask the same question the same way again and again
+    ELSE IF e.p # "conn" /\ RequestsTo(A, e.o, e.s) + 1 > MaxRequestsPerServer THEN {"requests-per-server-exceed-bound"}
     ELSE {}
 
 \* for the report: did the caller that created the exchange walk away while others kept waiting?
